@@ -49,4 +49,10 @@ func genFixes(repo string) {
 	ni := sq("datastore", "repoManager", "newInstanceID")
 	emit("newInstanceIdSkipsLiveIds", "newInstanceID draws again while the drawn id belongs to a live instance, whichever generator is configured (C06/C12: a lagging stored counter never makes two instances share storage)",
 		strings.Contains(ni, "_,found:=m.iids[curid]if!found{invalidID=false}"), ni != "")
+	gs := sq("datatype/roi", "", "GetSpans") + "|" + sq("datatype/roi", "Data", "GetSpans")
+	emit("roiGetSpansScansAll", "both full-ROI readers scan the whole index range of the version, not the instance-wide z extents (C02: later POSTs at other versions move those extents)",
+		strings.Count(gs, "returngetSpans(ctx,minIndexRLE,maxIndexRLE)") == 2, gs != "|")
+	pa, sp := sq("datatype/roi", "Data", "Partition"), sq("datatype/roi", "Data", "SimplePartition")
+	emit("roiPartitionUsesVersionExtents", "Partition and SimplePartition lay out their layers from the z extents of the spans stored at the requested version (C02)",
+		strings.Contains(pa, "minZ,maxZ,err:=d.zExtents(ctx)") && strings.Contains(sp, "minZ,maxZ,err:=d.zExtents(ctx)") && !strings.Contains(pa, "d.MinZ") && !strings.Contains(sp, "d.MinZ") && !strings.Contains(pa, "d.MaxZ") && !strings.Contains(sp, "d.MaxZ"), pa != "" && sp != "")
 }
